@@ -433,11 +433,9 @@ func commentLinesFrom(commentGroups ...*ast.CommentGroup) (comments []string) {
 			continue
 		}
 
+		// CommentGroup.Text has already removed directives (//go:generate ...); a line that merely reads
+		// "go: ..." is ordinary documentation
 		for _, line := range strings.Split(strings.TrimSpace(commentGroup.Text()), "\n") {
-			// skip go: prefix
-			if strings.HasPrefix(line, "go:") {
-				continue
-			}
 			comments = append(comments, line)
 		}
 	}
